@@ -16,15 +16,15 @@ var rec *common.Recorder
 
 // violation classes enabled per property (a check reports only what its property states)
 var classes = map[string][]string{
-	"C05": {"result", "calls", "consumed", "not-closed", "panic", "deadlock"},
-	"C06": {"prefix", "closed-early", "not-closed", "leak", "leak-after-cancel", "not-closed-after-cancel", "panic", "deadlock", "fold-partial"},
-	"C07": {"result", "errors", "calls", "not-closed", "prefix", "closed-early", "panic", "deadlock", "leak"},
+	"C05": {"runaway", "result", "calls", "consumed", "not-closed", "panic", "deadlock"},
+	"C06": {"runaway", "prefix", "closed-early", "not-closed", "leak", "leak-after-cancel", "not-closed-after-cancel", "panic", "deadlock", "fold-partial"},
+	"C07": {"runaway", "result", "errors", "calls", "not-closed", "prefix", "closed-early", "panic", "deadlock", "leak"},
 	"C08": {"send-blocked", "fifo", "lost", "closed-early", "not-closed", "sender-close", "panic", "deadlock", "linearizability"},
-	"C09": {"closed-before-workers", "result", "errors", "calls", "prefix", "closed-early", "not-closed", "leak", "leak-after-cancel", "not-closed-after-cancel", "panic", "deadlock"},
-	"C10": {"result", "not-closed", "panic", "deadlock", "leak"},
-	"C11": {"result", "prefix", "calls", "pace", "closed-early", "leak-after-cancel", "not-closed-after-cancel", "panic", "deadlock", "errors"},
-	"C12": {"result", "prefix", "closed-early", "not-closed", "panic", "deadlock", "leak"},
-	"C13": {"result", "prefix", "rate", "schedule", "closed-early", "not-closed", "panic", "deadlock"},
+	"C09": {"runaway", "closed-before-workers", "result", "errors", "calls", "prefix", "closed-early", "not-closed", "leak", "leak-after-cancel", "not-closed-after-cancel", "panic", "deadlock"},
+	"C10": {"runaway", "result", "not-closed", "panic", "deadlock", "leak"},
+	"C11": {"runaway", "result", "prefix", "calls", "pace", "closed-early", "leak-after-cancel", "not-closed-after-cancel", "panic", "deadlock", "errors"},
+	"C12": {"runaway", "result", "prefix", "closed-early", "not-closed", "panic", "deadlock", "leak"},
+	"C13": {"runaway", "result", "prefix", "rate", "schedule", "closed-early", "not-closed", "panic", "deadlock"},
 }
 
 func enabled(class string) bool {
@@ -494,6 +494,9 @@ func runCase(t *testing.T, c *caseT, h hooks) *world {
 			w.teardown()
 		})
 	})
+	if w != nil && w.runaway.Load() {
+		w.bad("runaway", "the stage called its function more than %d times without the case coming to rest (calls are not paced or do not stop)", callBudget)
+	}
 	if pn != nil {
 		msg := fmt.Sprint(pn)
 		if w == nil {
